@@ -7,7 +7,7 @@ PROPERTY_ID = "C07"
 RULE = ("for every base tuple (key length x AAD length x ciphertext length): the valid tuple, every single-bit flip of the tag (128), every pair of tag bits (8128, on the base shapes), equal byte deltas in every pair of tag bytes, swapped/rotated/reversed/complemented tags, every single-bit flip of the nonce (96), "
         "of the key (all bits), every bit of ciphertext and AAD when <= 17 bytes else all bits of the first, last and 16-byte-boundary bytes, "
         "truncation/extension by one byte, moving a byte across the AAD/ciphertext boundary in both directions, swapping AAD and ciphertext, zero tag, "
-        "tag of the swapped-length tuple; each case is decided by the one-shot decryptor and by the incremental decryptor in two chunkings; the "
+        "tag of the swapped-length tuple; each case is decided by the one-shot decryptor and by the incremental decryptor in two chunkings (the split one continuing on clones taken in the AAD phase and in the data phase); the "
         "expected verdict is computed: accept iff supplied tag == model tag of exactly the supplied inputs; non-trivial = mutated case; distinct = program text")
 ASSUMPTIONS = ["python RFC 8439 AEAD model as in C06", "ciphertext/AAD content from the pattern alphabet; bit positions beyond the first/last/boundary bytes of long inputs are not flipped"]
 
@@ -68,8 +68,9 @@ def programs(kl, key, nonce, aad, ct, tag):
     inc = ["actx_new s0 20 %s %s" % (H(key), H(nonce)), "actx_aad s0 %s" % H(aad), "actx_todec s0", "adec s0 %s" % H(ct), "adec_fin s0 %s" % H(tag)]
     out.append((inc, "inc"))
     a2, c2 = len(aad) // 2, (len(ct) + 1) // 2
-    inc2 = ["actx_new s0 20 %s %s" % (H(key), H(nonce)), "actx_aad s0 %s" % H(aad[:a2]), "actx_aad s0 %s" % H(aad[a2:]), "actx_todec s0",
-            "adec_mut s0 %s" % H(ct[:c2]), "adec_mut s0 %s" % H(ct[c2:]), "adec_fin s0 %s" % H(tag)]
+    # split AAD and ciphertext, continuing on clones taken in the AAD phase and in the data phase (a clone continues identically)
+    inc2 = ["actx_new s0 20 %s %s" % (H(key), H(nonce)), "actx_aad s0 %s" % H(aad[:a2]), "aclone s0 s1", "actx_aad s1 %s" % H(aad[a2:]), "actx_todec s1",
+            "adec_mut s1 %s" % H(ct[:c2]), "aclone s1 s2", "adec_mut s2 %s" % H(ct[c2:]), "adec_fin s2 %s" % H(tag)]
     out.append((inc2, "inc2"))
     return out
 
